@@ -44,21 +44,26 @@ def dst_name(topics_spec, t):
 
 class PollOracle:
     """schedule oracle: each poll is a choice among the ready sockets (and 'nothing yet' while the budget allows)"""
-    def __init__(self, e, max_polls, max_none):
+    def __init__(self, e, max_polls, max_none, advance_clock=False):
+        self.advance_clock = advance_clock
         self.e = e; self.left = max_polls; self.none_left = max_none; self.trace = []; self.timeouts_nz = 0
     def __call__(self, ready, timeout):
         if self.left <= 0: raise PathEnd
         self.left -= 1
         if not ready:
             if timeout is None: raise PathEnd   # blocking poll with nothing ever arriving: end of the bounded stream
-            self.trace.append(None); self.timeouts_nz += 1; return None
+            self.trace.append(None); self.timeouts_nz += 1
+            if self.advance_clock: CLOCK.ms = CLOCK.ms + timeout
+            return None
         opts = list(ready)
         if self.none_left > 0: opts.append(None)
         c = self.e.choice('poll', len(opts)) if len(opts) > 1 else 0
         s = opts[c]
         if s is None:
             self.none_left -= 1
-            if timeout != 0: self.timeouts_nz += 1
+            if timeout != 0:
+                self.timeouts_nz += 1
+                if self.advance_clock and timeout: CLOCK.ms = CLOCK.ms + timeout
         self.trace.append(None if s is None else s.addr)
         return s
 
